@@ -37,6 +37,8 @@ impl Iterator for GenIter {
         Some(t)
     }
     fn size_hint(&self) -> (usize, Option<usize>) {
+        // size_hint is user code too: it counts as an iterator event and can be the one that panics
+        ledger::user_event(FaultKind::IterStep);
         match self.hint {
             Hint::Exact => (self.left as usize, Some(self.left as usize)),
             Hint::Low => ((self.left / 2) as usize, None),
@@ -154,7 +156,10 @@ impl St {
         self.op_counts = [0; 5];
         self.allowed.clear();
         self.dig(op_tag(op));
+        take_side_digest();
         let flow = self.apply(op)?;
+        let side = take_side_digest();
+        self.dig(side);
         self.pending_fault = None;
         self.events_to_err()?;
         let obs = self.observe()?;
